@@ -15,14 +15,17 @@ open Viv.Machine
 
 /-! ### the vectorised transition is the pointwise one -/
 
-/-- **own weights and own draws only.** After an accepted `Machine.transition(idx)`, every simulant of the
-index is where `moveOne` – a function of the machine, the simulant's label (hence its own column of weights,
-its own membership in active sets, its own draws) and its state BEFORE the call – puts it. No other simulant
-and no other member of `idx` occurs in the right-hand side. -/
+/-- **own weights and own draws only.** After an accepted `Machine.transition(idx)`, every TRACKED simulant of
+the index is where `moveOne` – a function of the machine, the simulant's label (hence its own column of
+weights, its own membership in active sets, its own draws) and its state BEFORE the call – puts it; an
+untracked simulant of the index keeps its row (the machine's view does not show it). No other simulant and no
+other member of `idx` occurs in the right-hand sides. -/
 theorem transition_pointwise (m : Mach) (fuel : Nat) (tab tab' : Table) (idx : List Nat)
     (h : transition m fuel tab idx = .ok tab') (i : Nat) (hi : i ∈ idx) :
-    ∃ r path, tab[i]? = some r ∧ moveOne m fuel r.st i = .ok path ∧
-      tab'[i]? = some { r with st := final r.st path } := by
+    ∃ r, tab[i]? = some r ∧
+      (r.tracked = false → tab'[i]? = some r) ∧
+      (r.tracked = true → ∃ path, moveOne m fuel r.st i = .ok path ∧
+        tab'[i]? = some { r with st := final r.st path }) := by
   unfold transition at h
   split at h
   · cases h
@@ -36,45 +39,60 @@ theorem transition_pointwise (m : Mach) (fuel : Nat) (tab tab' : Table) (idx : L
     have hr : tab[i]? = some tab[i] := List.getElem?_eq_getElem hlt
     have hnd : ((statePops m tab idx).map (·.1)).Nodup := by
       rw [statePops_keys]; exact List.nodup_range
-    have hdef : ∀ p ∈ statePops m tab idx, p.2 = idx.filter (fun i => (tab[i]?.map (·.st)) == some p.1) := by
+    have hdef : ∀ p ∈ statePops m tab idx, p.2 = idx.filter (fun i => (tab[i]?.bind Row.seen) == some p.1) := by
       intro p hp
       simp only [statePops, List.mem_map, List.mem_range] at hp
       obtain ⟨s, _, rfl⟩ := hp
       rfl
     obtain ⟨_, hf, hp⟩ := runPops_sound m fuel idx tab (statePops m tab idx) tab tab' hdef hnd
       (fun _ _ _ _ _ => rfl) h
-    by_cases hs : tab[i].st < m.states.length
-    · have hmem : (tab[i].st, idx.filter (fun j => (tab[j]?.map (·.st)) == some tab[i].st)) ∈ statePops m tab idx := by
-        simp only [statePops, List.mem_map, List.mem_range]
-        exact ⟨tab[i].st, hs, rfl⟩
-      obtain ⟨path, hmv, ht⟩ := hp i hi _ hmem (by rw [hr]; rfl)
-      exact ⟨path, hr, hmv, by rw [ht, hr]; rfl⟩
-    · have hnone : ∀ p ∈ statePops m tab idx, tab[i]?.map (·.st) ≠ some p.1 := by
-        intro p hp hh
-        have : p.1 ∈ (statePops m tab idx).map (·.1) := List.mem_map_of_mem hp
-        rw [statePops_keys] at this
+    have hkeys : ∀ p ∈ statePops m tab idx, p.1 < m.states.length := by
+      intro p hp
+      have : p.1 ∈ (statePops m tab idx).map (·.1) := List.mem_map_of_mem hp
+      rw [statePops_keys] at this
+      simpa using this
+    refine ⟨hr, ?_, ?_⟩
+    · intro hut
+      have hnone : ∀ p ∈ statePops m tab idx, tab[i]?.bind Row.seen ≠ some p.1 := by
+        intro p _ hh
         rw [hr] at hh
-        simp only [Option.map_some, Option.some.injEq] at hh
-        rw [← hh] at this
-        exact hs (by simpa using this)
-      have hempty : (m.state tab[i].st).trans.isEmpty = true := by
-        rw [state_default m _ (Nat.le_of_not_lt hs)]; rfl
-      exact ⟨[], hr, moveOne_empty m fuel _ i hempty, by rw [hf i (Or.inr hnone), hr]; rfl⟩
+        have := seen_tracked (r := tab[i]) (by simpa using hh)
+        rw [hut] at this; cases this
+      rw [hf i (Or.inr hnone), hr]
+    · intro htr
+      have hseen : tab[i]?.bind Row.seen = some tab[i].st := by
+        rw [hr]; simp [Row.seen, htr]
+      by_cases hs : tab[i].st < m.states.length
+      · have hmem : (tab[i].st, idx.filter (fun j => (tab[j]?.bind Row.seen) == some tab[i].st)) ∈ statePops m tab idx := by
+          simp only [statePops, List.mem_map, List.mem_range]
+          exact ⟨tab[i].st, hs, rfl⟩
+        obtain ⟨path, hmv, ht⟩ := hp i hi _ hmem hseen
+        exact ⟨path, hmv, by rw [ht, hr]; rfl⟩
+      · have hnone : ∀ p ∈ statePops m tab idx, tab[i]?.bind Row.seen ≠ some p.1 := by
+          intro p hp hh
+          rw [hseen] at hh
+          simp only [Option.some.injEq] at hh
+          have := hkeys p hp
+          omega
+        have hempty : (m.state tab[i].st).trans.isEmpty = true := by
+          rw [state_default m _ (Nat.le_of_not_lt hs)]; rfl
+        exact ⟨[], moveOne_empty m fuel _ i hempty, by rw [hf i (Or.inr hnone), hr]; rfl⟩
 
 /-- **frame.** Simulants outside the index keep their whole row; every row keeps every column other than
-the state column; no row is added or removed. -/
+the state column (`other`, `tracked`); no row is added or removed. -/
 theorem transition_frame (m : Mach) (fuel : Nat) (tab tab' : Table) (idx : List Nat)
     (h : transition m fuel tab idx = .ok tab') :
     tab'.length = tab.length ∧
     (∀ i, i ∉ idx → tab'[i]? = tab[i]?) ∧
-    (∀ i : Nat, (tab'[i]?).map Row.other = (tab[i]?).map Row.other) := by
+    (∀ i : Nat, (tab'[i]?).map Row.other = (tab[i]?).map Row.other ∧
+      (tab'[i]?).map Row.tracked = (tab[i]?).map Row.tracked) := by
   have hpw := transition_pointwise m fuel tab tab' idx h
   unfold transition at h
   split at h
   · cases h
   · have hnd : ((statePops m tab idx).map (·.1)).Nodup := by
       rw [statePops_keys]; exact List.nodup_range
-    have hdef : ∀ p ∈ statePops m tab idx, p.2 = idx.filter (fun i => (tab[i]?.map (·.st)) == some p.1) := by
+    have hdef : ∀ p ∈ statePops m tab idx, p.2 = idx.filter (fun i => (tab[i]?.bind Row.seen) == some p.1) := by
       intro p hp
       simp only [statePops, List.mem_map, List.mem_range] at hp
       obtain ⟨s, _, rfl⟩ := hp
@@ -84,20 +102,29 @@ theorem transition_frame (m : Mach) (fuel : Nat) (tab tab' : Table) (idx : List 
     refine ⟨hl, fun i hi => hf i (Or.inl hi), ?_⟩
     intro i
     by_cases hi : i ∈ idx
-    · obtain ⟨r, path, hr, _, ht⟩ := hpw i hi
-      rw [ht, hr]; rfl
-    · rw [hf i (Or.inl hi)]
+    · obtain ⟨r, hr, hu, ht⟩ := hpw i hi
+      cases htr : r.tracked with
+      | false => rw [hu htr, hr]; exact ⟨rfl, rfl⟩
+      | true =>
+        obtain ⟨path, _, ht'⟩ := ht htr
+        rw [ht', hr]; exact ⟨rfl, rfl⟩
+    · rw [hf i (Or.inl hi)]; exact ⟨rfl, rfl⟩
 
 /-- **independent of the company.** A simulant transitioned alone, or with any other set of simulants, from
 the same table ends in the same row. -/
 theorem transition_alone_together (m : Mach) (fuel : Nat) (tab t1 t2 : Table) (idx1 idx2 : List Nat)
     (h1 : transition m fuel tab idx1 = .ok t1) (h2 : transition m fuel tab idx2 = .ok t2)
     (i : Nat) (hi1 : i ∈ idx1) (hi2 : i ∈ idx2) : t1[i]? = t2[i]? := by
-  obtain ⟨r, p, hr, hm, ht⟩ := transition_pointwise m fuel tab t1 idx1 h1 i hi1
-  obtain ⟨r', p', hr', hm', ht'⟩ := transition_pointwise m fuel tab t2 idx2 h2 i hi2
+  obtain ⟨r, hr, hu, ht⟩ := transition_pointwise m fuel tab t1 idx1 h1 i hi1
+  obtain ⟨r', hr', hu', ht'⟩ := transition_pointwise m fuel tab t2 idx2 h2 i hi2
   rw [hr] at hr'; cases hr'
-  rw [hm] at hm'; cases hm'
-  rw [ht, ht']
+  cases htr : r.tracked with
+  | false => rw [hu htr, hu' htr]
+  | true =>
+    obtain ⟨p, hm, e1⟩ := ht htr
+    obtain ⟨p', hm', e2⟩ := ht' htr
+    rw [hm] at hm'; cases hm'
+    rw [e1, e2]
 
 /-- the order (and multiplicity) in which the index lists the simulants is irrelevant -/
 theorem transition_perm (m : Mach) (fuel : Nat) (tab t1 t2 : Table) (idx1 idx2 : List Nat)
@@ -110,17 +137,17 @@ theorem transition_perm (m : Mach) (fuel : Nat) (tab t1 t2 : Table) (idx1 idx2 :
   · rw [(transition_frame m fuel tab t1 idx1 h1).2.1 i hi,
         (transition_frame m fuel tab t2 idx2 h2).2.1 i (fun hh => hi ((hsame i).mpr hh))]
 
-/-- **accepted exactly when every member's own path is.** The call is rejected iff some label is unknown or
-some simulant of the index meets – in its current state or in a transient state its own draws lead it
-into – weights that cannot be normalised (or an endless chain of transient states). Nothing else, in
-particular nothing about a simulant that is not in the index, can make the call fail. -/
+/-- **accepted exactly when every tracked member's own path is.** The call is rejected iff some label is
+unknown or some TRACKED simulant of the index meets – in its current state or in a transient state its own
+draws lead it into – weights that cannot be normalised (or an endless chain of transient states). Nothing
+else, in particular nothing about a simulant that is not in the index or is untracked, can make the call fail. -/
 theorem transition_accepts_iff (m : Mach) (fuel : Nat) (tab : Table) (idx : List Nat) :
     (∃ tab', transition m fuel tab idx = .ok tab') ↔
-      ∀ i ∈ idx, ∃ r, tab[i]? = some r ∧ ∃ path, moveOne m fuel r.st i = .ok path := by
+      ∀ i ∈ idx, ∃ r, tab[i]? = some r ∧ (r.tracked = true → ∃ path, moveOne m fuel r.st i = .ok path) := by
   constructor
   · rintro ⟨tab', h⟩ i hi
-    obtain ⟨r, path, hr, hm, _⟩ := transition_pointwise m fuel tab tab' idx h i hi
-    exact ⟨r, hr, path, hm⟩
+    obtain ⟨r, hr, _, ht⟩ := transition_pointwise m fuel tab tab' idx h i hi
+    exact ⟨r, hr, fun htr => (ht htr).imp fun _ hp => hp.1⟩
   · intro hall
     unfold transition
     have hany : ¬ (idx.any (fun i => decide (tab.length ≤ i)) = true) := by
@@ -135,11 +162,12 @@ theorem transition_accepts_iff (m : Mach) (fuel : Nat) (tab : Table) (idx : List
     simp only [statePops, List.mem_map, List.mem_range] at hp
     obtain ⟨s, _, rfl⟩ := hp
     obtain ⟨hii, hst⟩ := List.mem_filter.mp hi
-    obtain ⟨r, hr, path, hm⟩ := hall i hii
+    obtain ⟨r, hr, hm⟩ := hall i hii
     rw [hr] at hst
-    have : r.st = s := by simpa using hst
+    have hseen : r.seen = some s := by simpa using hst
+    have := seen_st hseen
     subst this
-    exact ⟨path, hm⟩
+    exact hm (seen_tracked hseen)
 
 /-! ### where a simulant can end up -/
 
@@ -212,9 +240,15 @@ original state where staying is allowed. -/
 theorem transition_target (m : Mach) (fuel : Nat) (tab tab' : Table) (idx : List Nat)
     (hd : ∀ s i, (m.state s).draws.getD i 0 ≤ m.dd)
     (h : transition m fuel tab idx = .ok tab') (i : Nat) (hi : i ∈ idx) :
-    ∃ r r', tab[i]? = some r ∧ tab'[i]? = some r' ∧ Lands m r.st r'.st := by
-  obtain ⟨r, path, hr, hm, ht⟩ := transition_pointwise m fuel tab tab' idx h i hi
-  exact ⟨r, _, hr, ht, moveOne_lands m i (fun s => hd s i) fuel r.st path hm⟩
+    ∃ r r', tab[i]? = some r ∧ tab'[i]? = some r' ∧ (r.tracked = true → Lands m r.st r'.st) ∧
+      (r.tracked = false → r' = r) := by
+  obtain ⟨r, hr, hu, ht⟩ := transition_pointwise m fuel tab tab' idx h i hi
+  by_cases htr : r.tracked = true
+  · obtain ⟨path, hm, e⟩ := ht htr
+    refine ⟨r, _, hr, e, fun _ => moveOne_lands m i (fun s => hd s i) fuel r.st path hm, fun hh => ?_⟩
+    rw [hh] at htr; cases htr
+  · have hf : r.tracked = false := by simpa using htr
+    exact ⟨r, r, hr, hu hf, fun hh => absurd hh htr, fun _ => rfl⟩
 
 /-! ### probability 0 never, a sole probability 1 always -/
 
@@ -443,20 +477,31 @@ theorem normalize_rejects (wd : Nat) (r : List Nat) :
 /-- … and a rejected row rejects the call: if a simulant of the index is in a state with transitions and its
 own weights there cannot be normalised, `Machine.transition` raises (for everybody). -/
 theorem transition_rejects (m : Mach) (fuel : Nat) (tab : Table) (idx : List Nat) (i : Nat) (r : Row) (e : Err)
-    (hi : i ∈ idx) (hr : tab[i]? = some r) (hne : (m.state r.st).trans.isEmpty = false)
+    (hi : i ∈ idx) (hr : tab[i]? = some r) (htk : r.tracked = true) (hne : (m.state r.st).trans.isEmpty = false)
     (hbad : normalize m.wd (m.state r.st).selfOk (rowOf (m.state r.st).trans i) = .error e) :
     ∃ e', transition m fuel tab idx = .error e' := by
   cases h : transition m fuel tab idx with
   | error e' => exact ⟨e', rfl⟩
   | ok tab' =>
     exfalso
-    obtain ⟨r', path, hr', hm, _⟩ := transition_pointwise m fuel tab tab' idx h i hi
+    obtain ⟨r', hr', _, ht⟩ := transition_pointwise m fuel tab tab' idx h i hi
     rw [hr] at hr'; cases hr'
+    obtain ⟨path, hm, _⟩ := ht htk
     cases fuel with
     | zero => rw [moveOne_zero m _ i hne] at hm; cases hm
     | succ fuel =>
       have := (hop_ok (moveOne_succ_ok hne hm).1).1
       rw [hbad] at this; cases this
+
+/-- **untracked simulants are not transitioned** (and cannot make the call fail): whatever their weights. -/
+theorem transition_untracked_untouched (m : Mach) (fuel : Nat) (tab tab' : Table) (idx : List Nat) (i : Nat) (r : Row)
+    (h : transition m fuel tab idx = .ok tab') (hr : tab[i]? = some r) (hu : r.tracked = false) :
+    tab'[i]? = some r := by
+  by_cases hi : i ∈ idx
+  · obtain ⟨r', hr', hu', _⟩ := transition_pointwise m fuel tab tab' idx h i hi
+    rw [hr] at hr'; cases hr'
+    exact hu' hu
+  · rw [(transition_frame m fuel tab tab' idx h).2.1 i hi, hr]
 
 /-! ### split once -/
 
@@ -466,11 +511,13 @@ transition to the non-transient state `B` is in `B` after the call – whatever 
 again as a `B`. -/
 theorem split_once (m : Mach) (fuel : Nat) (tab tab' : Table) (idx : List Nat) (i : Nat) (r : Row) (t : Trans)
     (hwd : 0 < m.wd) (h : transition m (fuel + 1) tab idx = .ok tab') (hi : i ∈ idx) (hr : tab[i]? = some r)
+    (htk : r.tracked = true)
     (htr : (m.state r.st).trans = [t]) (hp : prob t i = m.wd) (hnt : (m.state t.out).transient = false)
     (hd : (m.state r.st).draws.getD i 0 < m.dd) :
     tab'[i]? = some { r with st := t.out } := by
-  obtain ⟨r', path, hr', hm, ht⟩ := transition_pointwise m _ tab tab' idx h i hi
+  obtain ⟨r', hr', _, hx⟩ := transition_pointwise m _ tab tab' idx h i hi
   rw [hr] at hr'; cases hr'
+  obtain ⟨path, hm, ht⟩ := hx htk
   have hte : (m.state r.st).trans.isEmpty = false := by rw [htr]; rfl
   have hhop := sole_one_always m r.st i t hwd htr hp hd
   rw [moveOne_succ m fuel r.st i hte, hhop] at hm
@@ -491,12 +538,15 @@ def demo : Mach :=
       { transient := true, trans := [{ out := 3, w := [16, 16, 16, 16, 16] }], draws := [2, 2, 2, 2, 2] },
       { } ] }
 
-def demoTab : Table := [⟨0, 10⟩, ⟨0, 11⟩, ⟨0, 12⟩, ⟨0, 13⟩, ⟨1, 14⟩]
+def demoTab : Table := [⟨0, 10, true⟩, ⟨0, 11, true⟩, ⟨0, 12, true⟩, ⟨0, 13, true⟩, ⟨1, 14, true⟩]
 
 -- simulant 0 stays (draw 9/16 beyond 8/16), 1 takes its sole probability-1 transition to B and is NOT moved on
 -- to C, 2 goes through T to C, 3 (inactive for A → T, weight 0 for A → B) stays, 4 (a B) goes to C.
-example : transition demo 5 demoTab [0, 1, 2, 3, 4] = .ok [⟨0, 10⟩, ⟨1, 11⟩, ⟨3, 12⟩, ⟨0, 13⟩, ⟨3, 14⟩] := by decide
-example : transition demo 5 demoTab [2] = .ok [⟨0, 10⟩, ⟨0, 11⟩, ⟨3, 12⟩, ⟨0, 13⟩, ⟨1, 14⟩] := by decide
+example : transition demo 5 demoTab [0, 1, 2, 3, 4] = .ok [⟨0, 10, true⟩, ⟨1, 11, true⟩, ⟨3, 12, true⟩, ⟨0, 13, true⟩, ⟨3, 14, true⟩] := by decide
+example : transition demo 5 demoTab [2] = .ok [⟨0, 10, true⟩, ⟨0, 11, true⟩, ⟨3, 12, true⟩, ⟨0, 13, true⟩, ⟨1, 14, true⟩] := by decide
+-- an untracked simulant in the index is not transitioned (and its un-normalisable weights reject nothing)
+example : transition demo 5 [⟨0, 10, true⟩, ⟨1, 11, false⟩] [0, 1] = .ok [⟨0, 10, true⟩, ⟨1, 11, false⟩] := by decide
+example : cleanupCalls demo [⟨0, 10, true⟩, ⟨1, 11, false⟩, ⟨3, 12, true⟩, ⟨0, 13, true⟩] [3, 2, 1, 0] = .ok [(0, [3, 0]), (3, [2])] := by decide
 example : moveOne demo 5 0 2 = .ok [2, 3] := by decide
 example : hop demo 0 1 = .ok 0 ∧ (demo.state 0).trans[0]? = some { out := 1, w := [4, 16, 0, 0, 0] } := by decide
 example : Lands demo 0 3 :=
